@@ -101,6 +101,12 @@ impl<R: Read + Seek + HasLength> CloneableSeekableReader<R> {
     }
 }
 
+/// verification hook: the crate private reader as an opaque `Read + Seek + Clone` (as unzip.rs uses it)
+#[cfg(feature = "verif_hooks")]
+pub fn verif_cloneable_reader<R: Read + Seek + HasLength>(r: R) -> impl Read + Seek + Clone {
+    CloneableSeekableReader::new(r)
+}
+
 impl<R: Read + Seek + HasLength> Read for CloneableSeekableReader<R> {
     fn read(&mut self, buf: &mut [u8]) -> std::io::Result<usize> {
         let mut inner = self.inner.lock().unwrap();
